@@ -7,7 +7,7 @@ RULE = ("M cases (R run + peak live heap growth measured by the harness' countin
         "declaring sizes from every class 0..2^56-2 in every vint width, at root, inside known-size and unknown-size masters, with the payload "
         "absent / partially present, x limits (5, 4096, 70000, default with sizes above 4e9 only) x tolerance settings x capacities; plus mutated "
         "streams with small limits.  Oracle: a declared size above the limit M is rejected with the size error (unless an earlier check fires) and "
-        "the measured peak stays <= 3*max(M, capacity, 16) + 4*len + 65536; the model's buffer length stays <= max(M, capacity, 16).  "
+        "the measured peak stays <= 3*max(M, capacity, 16) + 4*len + 65536 (+ 200 bytes per level of nesting in the 'deep' cases: documents of recursive masters nested up to 800 deep - the iterator keeps ~150 bytes of bookkeeping per OPEN master, which the size limit bounds only indirectly: remark R8 in DESIGN.md); the model's buffer length stays <= max(M, capacity, 16).  "
         "non-trivial = a header declares more than is present; distinct = distinct case line")
 TRUSTED = TRUSTED_BASE + ["counting #[global_allocator] of the harness (harness/src/alloc.rs): realloc counted as size delta"]
 ASSUMPTIONS = ASSUME_BASE + ["the bound on real heap usage is an implementation-level oracle (allocator behaviour is not modelled); the theorem bounds the model's buffer length"]
@@ -56,6 +56,17 @@ def generate(rng, tier):
                         continue
                     cfg = E.cfg_str(allow=rng.choice([0, 0, 4, 7]), maxs=lim, cap=rng.choice(["def", "0", "16", "100"]))
                     cases.append(Case("M %s %s - %s N" % (sp.s(), cfg, data.hex()), ctx, {"size": size, "limit": limv, "present": present}))
+    # depth: every open master costs bookkeeping (stack entry, the chain copied per header check, a queued End) that no size limit bounds;
+    # known-size recursive masters nested N deep (so N <= M/4) and unknown-size ones (N bounded by the input length only)
+    rs = E.rec_spec()
+    for depth, lim, unknown in ([(40, "126", False), (300, "4096", False), (800, "4096", False), (300, "5", True), (800, "64", True)] if thorough
+                                else [(40, "126", False), (300, "4096", False), (300, "5", True)]):
+        body = b""
+        for _ in range(depth):
+            body = E.id_bytes(0x4301) + (E.UNKNOWN8 if unknown else E.size_vint(len(body))) + body
+        data = E.id_bytes(0x81) + (E.UNKNOWN8 if unknown else E.size_vint(len(body))) + body
+        for cap in ("0", "16", "def"):
+            cases.append(Case("M %s %s - %s N" % (rs.s(), E.cfg_str(maxs=lim, cap=cap), data.hex()), "deep", {"size": None, "limit": int(lim), "present": 0, "depth": depth + 1}))
     specs = specs_pool(rng, 10)
     for k in range(3000 * TH if thorough else 300):
         spx, data, kind, _ = gen_stream(rng, specs, big=False, p_valid=0.2, p_mut=0.6)
@@ -114,6 +125,7 @@ def raw_check(case, raw_model, raw_impl):
         return None
     if mc > bound_model:
         return "model buffer length %d exceeds max(limit, capacity, 16) = %d: %s" % (mc, bound_model, case.lines[0][-200:])
-    if ip > 3 * bound_model + 4 * n + 65536:
-        return "measured peak heap growth %d exceeds 3*max(limit %d, capacity %d, 16) + 4*len + 64KiB: %s" % (ip, m["limit"], cap, case.lines[0][-300:])
+    # per open master: ~150 bytes of bookkeeping (measured 144), not bounded by the limit but by the nesting depth
+    if ip > 3 * bound_model + 4 * n + 65536 + 200 * m.get("depth", 0):
+        return "measured peak heap growth %d exceeds 3*max(limit %d, capacity %d, 16) + 4*len + 64KiB + 200*depth: %s" % (ip, m["limit"], cap, case.lines[0][-300:])
     return None
